@@ -52,17 +52,13 @@ func JSONBytes(o interface{}) []byte {
 
 // NOTE: inefficient
 func JSONBytesPretty(o interface{}) []byte {
-	jsonBytes := JSONBytes(o)
-	var object interface{}
-	err := json.Unmarshal(jsonBytes, &object)
-	if err != nil {
+	// indent the canonical bytes directly: a detour through interface{} would round
+	// 64-bit integers through float64
+	var buf bytes.Buffer
+	if err := json.Indent(&buf, JSONBytes(o), "", "\t"); err != nil {
 		gcmn.PanicSanity(err)
 	}
-	jsonBytes, err = json.MarshalIndent(object, "", "\t")
-	if err != nil {
-		gcmn.PanicSanity(err)
-	}
-	return jsonBytes
+	return buf.Bytes()
 }
 
 // o: a pointer to the object to be filled
